@@ -17,6 +17,26 @@ def names(dt, DataType):
     return [b for b in BASES if (dt.value & DataType[b].value) != 0]
 
 
+def tlaps_laws():
+    import os
+    import re
+    import shutil
+    import subprocess
+    wd = tlc.workdir('tlaps')
+    try:
+        shutil.copy(os.path.join(tlc.SPEC, 'HplTypesLaws.tla'), wd)
+        try:
+            p = subprocess.run(['tlapm', 'HplTypesLaws.tla'], cwd=wd, stdout=subprocess.PIPE, stderr=subprocess.STDOUT, text=True, timeout=600)
+        except (OSError, subprocess.TimeoutExpired) as e:
+            return {'status': 'not run: %s' % type(e).__name__}
+        m = re.search(r'All (\d+) obligations? proved', p.stdout)
+        if not m:
+            raise tlc.MachineryError('TLAPS did not prove HplTypesLaws:\n' + p.stdout[-1500:])
+        return {'status': 'proved', 'obligations': int(m.group(1)), 'module': 'HplTypesLaws'}
+    finally:
+        shutil.rmtree(wd, ignore_errors=True)
+
+
 def run(replay=None):
     import_hpl()
     from hpl.types import DataType
@@ -31,6 +51,9 @@ def run(replay=None):
         else:
             raise tlc.MachineryError(m['out'][-3000:])
     rep.cov['model_laws'] = ['Idempotent', 'Commut', 'Assoc', 'Monotone', 'CanBeLaw', 'GLB', 'LUB', 'Narrows']
+    if thorough:
+        # the same laws for type sets over ANY set of base types, by proof (TLAPS, spec/HplTypesLaws.tla)
+        rep.cov['tlaps'] = tlaps_laws()
     # --- drive the implementation on every pair
     allv = [DataType(i) for i in range(128)]
     events = []
@@ -59,6 +82,32 @@ def run(replay=None):
         for b in BASES:
             add({'op': 'can_be_base', 's': names(s, DataType), 'base': b,
                  'r': bool(getattr(s, 'can_be_' + b.lower()))})
+    # narrowing as AST nodes do it: node.cast(s).cast(t)[.cast(u)] on references whose type set is still wide; every step
+    # must be the intersection of the node's CURRENT type set with the argument (or a type error)
+    from harness.drive import call_parser
+    nodes = [call_parser('expression', tx)[1] for tx in ('@x', 'a', 'xs[0]', 'm.f')]
+    rq = rng('c20x')
+
+    def step(node, t):
+        ev = {'op': 'expr_cast', 's': names(node.data_type, DataType), 't': names(t, DataType), 'r': []}
+        try:
+            r2 = node.cast(t)
+            ev['out'] = 'ok'
+            ev['r'] = names(r2.data_type, DataType)
+        except Exception as e:  # noqa
+            r2 = None
+            ev['out'] = type(e).__name__
+        add(ev)
+        return r2
+    for node in nodes:
+        for s1 in allv:
+            n1 = step(node, s1)
+            if n1 is None:
+                continue
+            for t1 in (allv if (thorough or node is nodes[0]) else rq.sample(allv, 24)):
+                n2 = step(n1, t1)
+                if n2 is not None and rq.random() < (0.2 if thorough else 0.03):
+                    step(n2, rq.choice(allv))
     # unions: all pairs, plus triples (sampled in quick, more in thorough)
     for s in allv:
         for t in allv:
